@@ -31,6 +31,10 @@ class TooManyPaths(VCError):
     pass
 
 
+class WouldFork(Exception):
+    """raised by decide() in no-fork (speculative) mode when a condition is undetermined"""
+
+
 class CheckResult:
     __slots__ = ("label", "status", "model", "solver", "secs", "where", "reason", "path")
 
@@ -99,6 +103,7 @@ class PathCtx:
         self.covers = set()
         self.notes = []  # axioms / inlined helpers / opaque calls used on this path
         self.n_pc = 0
+        self.no_fork = False
 
     # -- naming ------------------------------------------------------------------
     def fresh_name(self, base):
@@ -140,6 +145,8 @@ class PathCtx:
             can_t = self.solver.check(cond) != z3.unsat
             can_f = self.solver.check(z3.Not(cond)) != z3.unsat
             if can_t and can_f:
+                if self.no_fork:
+                    raise WouldFork()
                 self.engine.push_work(self.trace + [False])
                 choice = True
             elif can_t:
@@ -161,6 +168,8 @@ class PathCtx:
 
     def choose(self, n: int) -> int:
         """non-deterministic choice among n alternatives (harness-level case split)"""
+        if self.no_fork and n > 1 and len(self.trace) >= len(self.prefix):
+            raise WouldFork()
         for k in range(n - 1):
             pos = len(self.trace)
             if pos < len(self.prefix):
@@ -273,9 +282,12 @@ class Engine:
     def push_work(self, prefix):
         self.worklist.append(prefix)
 
-    def explore(self, run_path):
-        """run_path(ctx) executes the harness along one path.  Returns summary dict."""
-        self.worklist = [[]]
+    def explore(self, run_path, initial=None, fanout=None):
+        """run_path(ctx) executes the harness along one path.  Returns summary dict.
+        initial: decision prefixes to explore (default: the empty prefix = everything).
+        fanout: stop early, breadth first, once that many prefixes are pending; they are
+        returned under "remaining" for other workers to explore."""
+        self.worklist = [list(p) for p in initial] if initial else [[]]
         paths = 0
         aborted = 0
         checks = []
@@ -283,7 +295,9 @@ class Engine:
         notes = set()
         t0 = time.time()
         while self.worklist:
-            prefix = self.worklist.pop()
+            if fanout and paths >= 1 and len(self.worklist) >= fanout:
+                break
+            prefix = self.worklist.pop(0) if fanout else self.worklist.pop()
             paths += 1
             if paths > self.max_paths:
                 raise TooManyPaths(f"more than {self.max_paths} paths")
@@ -304,4 +318,5 @@ class Engine:
             "covers": covers,
             "notes": notes,
             "secs": time.time() - t0,
+            "remaining": [list(p) for p in self.worklist],
         }
